@@ -71,7 +71,7 @@ PROPS = {
    'nontrivial': lambda r: r.get('allocs', 0) >= 5 and r.get('reallocs', 0) >= 1,
  },
  'C04': {
-   'families': [('c04_dirty', 3, ALLU), ('c04_grow', 2, ALLU), ('c04_hugeslack', 0.4, ALLU)],
+   'families': [('c04_dirty', 3, ALLU), ('c04_grow', 2, ALLU), ('c04_hugeslack', 0.8, ALLU)],
    'runs': {'quick': 2400, 'thorough': 120000},
    'rule': 'non-trivial = at least one zero obligation was checked (zeroing allocation over previously dirtied memory, or a growth step of a zero-initialised block); distinct = distinct API result hash',
    'nontrivial': lambda r: sw(r, 'zero_checked') > 0,
